@@ -316,7 +316,20 @@ def run(pm, ctx):
                           "the indices listed in the group: a non-contiguous or unsorted group is shrunk together with rows of other groups", line=getattr(e.node, "lineno", None), site=site)
             continue
         if not seen_args:
-            ctx.unrecognised("C06-c", site, f"the group operator does not call {elem}: an inlined operator is not judged by this rule")
+            # inlined operator: the norm of a group must be the l2 norm of the flattened block
+            spec = None
+            for c in ast.walk(gf):
+                if isinstance(c, ast.Call) and (call_name(c) or "").endswith("linalg.norm") and c.args:
+                    kw = {k.arg: norm_src(k.value) for k in c.keywords}
+                    a0 = c.args[0]
+                    flat = isinstance(a0, ast.Call) and isinstance(a0.func, ast.Attribute) and a0.func.attr in ("reshape", "ravel", "flatten")
+                    if kw.get("ord") in ("2", "-2", "np.inf", "1", "'nuc'") and "axis" not in kw and not flat:
+                        spec = c
+            if spec is not None:
+                ctx.violation("C06-c", pu.relpath, gname, norm_src(spec)[:100], f"`{norm_src(spec)}` on the 2-d block of a group is a matrix norm (ord=2: the largest singular value), "
+                              f"not the l2 norm of the flattened block: groups of rank >= 2 are zeroed too early and shrunk too much", line=spec.lineno, site=site)
+            else:
+                ctx.unrecognised("C06-c", site, f"the group operator does not call {elem}: an inlined operator is not judged by this rule")
             continue
         bad = []
         for a, q in seen_args:
